@@ -341,9 +341,19 @@ func c06(c *an.Check) {
 					}
 					return false
 				})
-				return last != nil && s.ExecutedSince(at, last, func(i ssa.Instruction) bool {
+				if last == nil || len(fn.Params) == 0 {
+					return false
+				}
+				// a deferred broadcast runs when the critical section ends, after every change
+				if s.Executed(at, func(i ssa.Instruction) bool {
+					d, ok := i.(*ssa.Defer)
+					return ok && d.Call.Value == ssa.Value(fn.Params[0])
+				}) {
+					return true
+				}
+				return s.ExecutedSince(at, last, func(i ssa.Instruction) bool {
 					call, ok := i.(*ssa.Call)
-					return ok && len(fn.Params) > 0 && call.Call.Value == ssa.Value(fn.Params[0])
+					return ok && call.Call.Value == ssa.Value(fn.Params[0])
 				})
 			}}}})
 	}
